@@ -33,7 +33,7 @@ func (c02) Rule() string {
 func (c02) Batches(tier string) int { return 32 }
 func (c02) Required(string) []string {
 	return []string{"compared", "probe_programs", "arity_matrix", "ref.call", "ref.funclit", "ref.for", "ref.forin", "ref.destructuring", "ref.const",
-		"ref.compound-assign", "ref.index-assign", "ref.call-spread", "ref.call-variadic", "ref.break", "ref.continue", "tag.tail-recursion", "tag.self-call-discarded", "tag.assign-captured", "tag.shadow-outer"}
+		"ref.compound-assign", "ref.index-assign", "ref.call-spread", "ref.call-variadic", "ref.break", "ref.continue", "tag.tail-recursion", "tag.self-call-discarded", "tag.assign-captured", "tag.shadow-outer", "tail_mix_programs"}
 }
 func (c02) Assumptions() []string {
 	return []string{"internal/ref is a faithful reading of docs/tutorial.md, docs/error-handling.md, docs/destructuring.md (trusted base)",
@@ -245,6 +245,12 @@ func (m c02) Run(c *core.Ctx) {
 	for _, src := range gen.RecursionTryMatrix() {
 		fixed = append(fixed, &Program{Src: src, Tags: []string{"recursion-try-matrix"}})
 	}
+	nMatrix := len(fixed)
+	for form := 0; form < 2; form++ {
+		for _, src := range gen.TailMixPrograms("", form) {
+			fixed = append(fixed, &Program{Src: src, Tags: []string{"tail-mix"}})
+		}
+	}
 	for i, p := range fixed {
 		if i%c.NBatch != c.Batch {
 			continue
@@ -256,8 +262,10 @@ func (m c02) Run(c *core.Ctx) {
 		ok, r := checkAgainstRef(c, "C02", p, nil, 400000)
 		if i < nProbe {
 			c.Count("probe_programs")
-		} else {
+		} else if i < nMatrix {
 			c.Count("arity_matrix")
+		} else if ok {
+			c.Count("tail_mix_programs")
 		}
 		if ok {
 			countFeatures(c, r.In, "ref.")
